@@ -444,11 +444,21 @@ def derived_attr(cls_node: ast.ClassDef, attr: str, known: set, depth: int = 0):
     value = w[0][2]
     init = next(f for f in cls_node.body if isinstance(f, ast.FunctionDef) and f.name == '__init__')
     pos = init.body.index(w[0][1])
+    # names bound by comprehensions inside the value are its own; numpy / builtins are fine; anything else is a constructor argument or a global
+    own_bound = {t.id for c in ast.walk(value) if isinstance(c, ast.comprehension) for t in ast.walk(c.target) if isinstance(t, ast.Name)}
     for x in ast.walk(value):
-        if isinstance(x, ast.Name) and x.id != me and isinstance(x.ctx, ast.Load):
+        if isinstance(x, ast.Name) and x.id != me and isinstance(x.ctx, ast.Load) and x.id not in own_bound and x.id not in ('np', 'numpy', 'range', 'int', 'len', 'list', 'tuple', 'float', 'abs', 'min', 'max'):
             return None        # depends on a constructor argument or a global: not an expression over the object
         if isinstance(x, ast.Call):
-            return None
+            # pure constructors of a table / number: np.array([...]), range(..), int(..), x.bit_length() ...
+            f_ = x.func
+            okc = (isinstance(f_, ast.Name) and f_.id in ('range', 'int', 'len', 'list', 'tuple', 'float', 'abs', 'min', 'max')) \
+                or (isinstance(f_, ast.Attribute) and f_.attr in ('array', 'asarray', 'arange', 'bit_length', 'zeros', 'ones', 'full') and not (isinstance(f_.value, ast.Name) and f_.value.id == me))
+            if not okc:
+                return None
+            continue
+        if isinstance(x, ast.Name) and x.id != me and isinstance(x.ctx, ast.Load):
+            continue
         if isinstance(x, ast.Attribute) and isinstance(x.value, ast.Name) and x.value.id == me:
             ww = writes.get(x.attr) or []
             if len(ww) != 1 or ww[0][0] != '__init__' or not ww[0][3] or init.body.index(ww[0][1]) > pos:
